@@ -148,5 +148,59 @@ def anti_axes(inp):
     return {'violates': bool(bad), 'detail': bad}
 
 
+def bath_closed_form(inp):
+    """pure dephasing (coupling operator conserved): bath-mode occupations and two-time bath correlations computed from the
+    PT-TEMPO process tensor against the displaced-oscillator closed form, for every dagg, coinciding and distinct frequencies,
+    t_1 < t_2 and t_1 = t_2, zero and finite temperature"""
+    import io
+    import contextlib
+    import oqupy
+    sz = oqupy.operators.sigma('z')
+    bad = []
+    sy = oqupy.operators.sigma('y')
+    for temp, cop in ((0.7, 0.5 * sz), (0.0, 0.5 * sz), (0.7, 0.5 * (0.6 * sy - 0.8 * sz))):
+        corr = oqupy.PowerLawSD(alpha=0.2, zeta=1.0, cutoff=3.0, cutoff_type='exponential', temperature=temp)
+        bath = oqupy.Bath(cop, corr)
+        par = oqupy.TempoParameters(dt=0.1, dkmax=None, epsrel=1e-9)
+        pt = oqupy.pt_tempo_compute(bath, 0.0, 0.8, par, progress_type='silent')
+        rho = np.array([[0.6, 0.2 - 0.1j], [0.2 + 0.1j, 0.4]])
+        b = oqupy.bath_dynamics.TwoTimeBathCorrelations(oqupy.System(0.8 * cop), bath, pt, initial_state=rho)
+        o2 = 0.25                                   # <O^2> for O = sigma_z / 2
+
+        def n_th(w):
+            return np.exp(-w / temp) / (1 - np.exp(-w / temp)) if temp > 0 else 0.0
+        for w in (0.5, 1.3, 4.0):
+            for change_only in (True, False):
+                t, occ = b.occupation(w, 0.1, change_only=change_only, progress_type='silent')
+                want = corr.spectral_density(w) * 0.1 * o2 * (2 - 2 * np.cos(w * t)) / w ** 2 + (0 if change_only else n_th(w))
+                dev = float(np.abs(occ - want).max()) if len(occ) == len(want) else float('inf')
+                if dev > 2e-8 or np.abs(t - 0.1 * np.arange(len(t))).max() > 1e-12:
+                    bad.append({'temperature': temp, 'diagonal coupling operator': bool(np.allclose(cop, np.diag(np.diag(cop)))), 'occupation at frequency': w, 'change_only': change_only, 'max deviation from the closed form': dev})
+
+        def integral(w, t, s):                      # int_0^t exp(s i w u) du
+            return (np.exp(s * 1j * w * t) - 1) / (s * 1j * w)
+        cases = [(0.5, 0.3, 0.5, 0.3), (0.5, 0.3, 1.3, 0.6), (1.3, 0.4, 1.3, 0.8), (0.5, 0.2, 1.3, 0.7), (2.0, 0.0, 0.7, 0.5)]
+        for (w1, t1, w2, t2) in cases:
+            for dagg in ((1, 0), (0, 1), (1, 1), (0, 0)):
+                for ip_ in (True, False):
+                    for change_only in (True, False):
+                        if t1 == 0.0 and not change_only:
+                            continue
+                        c = b.correlation(w1, t1, w2, t2, dw=(0.1, 0.2), dagg=dagg, change_only=change_only, interaction_picture=ip_,
+                                          progress_type='silent')
+                        g1, g2 = 0.1 * corr.spectral_density(w1) ** 0.5, 0.2 * corr.spectral_density(w2) ** 0.5
+                        amp2 = (1j if dagg[0] == 1 else -1j) * g2 * integral(w2, t2, -1 if dagg[0] == 1 else 1)
+                        amp1 = (1j if dagg[1] == 1 else -1j) * g1 * integral(w1, t1, -1 if dagg[1] == 1 else 1)
+                        want = o2 * amp2 * amp1
+                        if not change_only and w1 == w2 and dagg in ((1, 0), (0, 1)):
+                            want += n_th(w1) + (1 if dagg == (0, 1) else 0)
+                        if not ip_:
+                            want *= np.exp(1j * ((2 * dagg[0] - 1) * w2 * t2 + (2 * dagg[1] - 1) * w1 * t1))
+                        if abs(c - want) > 2e-8:
+                            bad.append({'temperature': temp, 'correlation (w1,t1,w2,t2)': [w1, t1, w2, t2], 'dagg': list(dagg), 'interaction_picture': ip_,
+                                        'change_only': change_only, 'got': str(complex(c)), 'closed form': str(complex(want))})
+    return {'violates': bool(bad), 'detail': bad[:6], 'number of deviations': len(bad)}
+
+
 # thorough tier (bounded native sweeps): (function, inputs, obligation of the open finding it reproduces or None)
-THOROUGH = [('nt_alignment', {}, None), ('three_operators_same_step', {}, None), ('nt_start_time', {}, None), ('anti_axes', {}, None)]
+THOROUGH = [('nt_alignment', {}, None), ('three_operators_same_step', {}, None), ('nt_start_time', {}, None), ('anti_axes', {}, None), ('bath_closed_form', {}, None)]
